@@ -12,7 +12,7 @@ import math
 
 import numpy as np
 
-from checks.common import hash_tag
+from checks.common import hash_tag, canon_value, quiet_call
 from qmc import gen as G
 from qmc import oracle as O
 from qmc.loader import load
@@ -228,6 +228,18 @@ def run_case(case, seed):
             Pi = None
         ok, res = call(fn, Aq)
         evals += 1
+        if sd == 0 and ok and not case.get("large"):
+            # verbose=True must not change the computation
+            if ep in ("col", "row", "auto"):
+                sv_ = sv.RandomizedSketchProjectPseudoinverse(block_size=case["bs"], max_iter=MAXIT, tol=tol, test_sketch_size=8, seed=sd, column_solver=case["cs"], verbose=True)
+                fv = {"col": sv_.compute_column_variant, "row": sv_.compute_row_variant, "auto": sv_.compute}[ep]
+            elif ep == "hyb":
+                fv = sv.HybridRSPNewtonSchulz(r=case["r"], p=case["p"], T=case["T"], tol=tol, max_iter=MAXIT, seed=sd, column_solver=case["cs"], verbose=True).compute
+            else:
+                fv = sv.CGNEQSolver(tol=tol, max_iter=500, preconditioner_rank=case["pr"], seed=sd, verbose=True).compute
+            okv, rv = quiet_call(fv, Aq)
+            if not okv or canon_value(rv) != canon_value(res):
+                fails.append(fail("verbose_changes_result", f"verbose=True {'raises ' + repr(rv) if not okv else 'returns a different value'}", **tags))
         if Aq.tobytes() != before:
             fails.append(fail("input_unchanged", "argument modified", **tags))
         if not ok:
